@@ -70,6 +70,15 @@ def same_tree(snapshot, tree_dict):
     return want == got
 
 
+def git_commits(root):
+    p = subprocess.run(["git", "rev-list", "--count", "HEAD"], cwd=root, env=dict(common.BASE_ENV, HOME=root), stdout=subprocess.PIPE,
+                       stderr=subprocess.DEVNULL)
+    try:
+        return int(p.stdout.decode().strip() or 0)
+    except ValueError:
+        return 0
+
+
 def history_len(root):
     p = os.path.join(root, ".renamify", "history.json")
     try:
@@ -248,6 +257,23 @@ def scenarios(thorough):
     S.append(Sc("replace/lock-held+dry", "replace", ["replace", TERM, REPL, "--no-regex", "-y", "--dry-run"] + J + NA, effect="none",
                 row={"yes": True, "noregex": True, "dry": True}, lock=True, cls="lock-held"))
     S.append(Sc("search/lock-held", "search", ["search", TERM] + J + NA, effect="none", lock=True, cls="lock-held"))
+    # --commit inside a real git repository (rename, replace, apply accept it): git's own messages must not reach our stdout
+    # (until 684ddcb `replace --commit` ran `git add` / `git commit` with an inherited stdout: "[main 0ba0b50] Replace …"
+    # preceded the document), and the operation includes the commit
+    for fsfx, fmt in (("", J), ("+summary", [])):
+        for q in ((False, True) if fmt else (False,)):
+            qs, qa = ("+quiet" if q else ""), (["--quiet"] if q else [])
+            S.append(Sc(f"replace/commit{fsfx}{qs}", "replace", ["replace", TERM, REPL, "--no-regex", "-y", "--commit"] + fmt + NA + qa,
+                        effect="replaced", git="committed", row={"yes": True, "noregex": True, "commit": True, "quiet": q}, cls="git-commit"))
+            S.append(Sc(f"rename/commit{fsfx}{qs}", "rename", ["rename", TERM, REPL, "-y", "--commit"] + fmt + NA + qa,
+                        effect="renamed", git="committed", row={"yes": True, "commit": True, "quiet": q}, cls="git-commit"))
+            S.append(Sc(f"apply/commit{fsfx}{qs}", "apply", ["apply", "--commit"] + fmt + NA + qa, pre=plan_pre,
+                        effect="renamed", git="committed", row={"commit": True, "quiet": q}, cls="git-commit"))
+    # --commit where there is no repository: the commit step fails after the change (an Err-arm error, one error document)
+    S.append(Sc("replace/commit-no-repo", "replace", ["replace", TERM, REPL, "--no-regex", "-y", "--commit"] + J + NA, effect="impossible",
+                fail="commit_changes", site=E, row={"yes": True, "noregex": True, "commit": True}, cls="git-commit"))
+    S.append(Sc("rename/commit-no-repo", "rename", ["rename", TERM, REPL, "-y", "--commit"] + J + NA, effect="impossible",
+                fail="rename_operation", site=E, row={"yes": True, "commit": True}, cls="git-commit"))
     # stdout on a terminal: the only situation in which the prompt of rename_operation is reachable under --output json
     S.append(Sc("rename/tty-no-yes", "rename", ["rename", TERM, REPL] + J + NA, effect="renamed", tty=True, cls="terminal"))
     S.append(Sc("rename/tty-yes (control)", "rename", ["rename", TERM, REPL, "-y"] + J + NA, effect="renamed", tty=True, row={"yes": True},
@@ -261,8 +287,14 @@ def scenarios(thorough):
         S.append(Sc(name, name.split("/")[0], argv, effect="impossible", site="clap", cls="invalid-flag"))
     # exits of main before the dispatch
     S.append(Sc("status/-C-nonexistent", "status", ["-C", "no_such_dir", "status"] + J, effect="impossible", site="pre_dispatch", cls="bad-directory"))
-    S.append(Sc("plan/auto-init-bogus", "plan", ["plan", TERM, REPL, "--auto-init", "bogus"] + J, effect="impossible", site="pre_dispatch",
-                git=True, cls="bad-auto-init"))
+    # a free-form option value clap does not validate: `--auto-init <mode>` is checked by check_and_auto_init itself
+    for cmd, argv in (("plan", ["plan", TERM, REPL]), ("search", ["search", TERM]), ("rename", ["rename", TERM, REPL, "-y"]),
+                      ("replace", ["replace", TERM, REPL, "--no-regex", "-y"]), ("apply", ["apply"])):
+        for av in (["--auto-init", "bogus"], ["--auto-init=bogus"]):
+            if cmd != "plan" and len(av) == 1:
+                continue
+            S.append(Sc(f"{cmd}/auto-init-bogus" + ("=" if len(av) == 1 else ""), cmd, argv + av + J, effect="impossible", site="pre_dispatch",
+                        git=True, cls="bad-auto-init"))
     # ---- first run: auto-init --------------------------------------------------------------------
     for git in (True, False):
         g = "git" if git else "nogit"
@@ -469,7 +501,16 @@ def execute(sc):
         if sc.kind == "nonutf8":
             with open(os.path.join(root.encode(), b"docs", b"foo_bar_\xff.txt"), "wb") as fh:
                 fh.write(b"plain\n")
-        if sc.git:
+        if sc.git == "committed":
+            # a real repository with an identity (local config; HOME is isolated) and a clean initial commit; .renamify ignored
+            with open(os.path.join(root, ".gitignore"), "w") as fh:
+                fh.write(".renamify/\n")
+            for g in (["init", "-q"], ["config", "user.name", "verif"], ["config", "user.email", "verif@example.invalid"],
+                      ["config", "commit.gpgsign", "false"], ["add", "-A"], ["commit", "-q", "-m", "initial"]):
+                gp = subprocess.run(["git"] + g, cwd=root, env=dict(common.BASE_ENV, HOME=root), stdout=subprocess.PIPE, stderr=subprocess.STDOUT)
+                if gp.returncode != 0:
+                    return {"setup_failed": {"argv": ["git"] + g, "rc": gp.returncode, "stderr": gp.stdout.decode("utf-8", "replace")[:300]}}
+        elif sc.git:
             subprocess.run(["git", "init", "-q"], cwd=root, env=common.BASE_ENV, stdout=subprocess.DEVNULL, stderr=subprocess.DEVNULL)
         for pre in sc.pre:
             rc, out, err = common.cli(pre, root)
@@ -482,6 +523,7 @@ def execute(sc):
             return {"setup_failed": {"argv": ["test-lock"], "rc": -1, "stderr": "the lock holder did not acquire the lock"}}
         before = snap(root)
         h0 = history_len(root)
+        c0 = git_commits(root) if sc.git == "committed" else 0
         plan_file = os.path.join(root, ".renamify", "plan.json")
         plan_before = os.path.exists(plan_file)
         if sc.tty:
@@ -533,6 +575,10 @@ def execute(sc):
             achieved = same_tree(after, tree(sc.kind)) and h1 == h0 + 1
         else:
             achieved = False
+        if sc.git == "committed":
+            obs["commits_delta"] = git_commits(root) - c0
+            if sc.row.get("commit") and eff in ("renamed", "replaced"):
+                achieved = achieved and obs["commits_delta"] == 1       # --commit: the operation includes the commit
         obs["achieved"] = achieved
         if eff == "plan_written" and not sc.row.get("dry"):
             obs["plan_file"] = os.path.exists(plan_file)
@@ -604,6 +650,8 @@ def classify(sc, obs, kind, detail):
             return "panic_no_document"          # repaired by 29e3f64: no longer listed, so a return is a VIOLATION
         if sc.cmd == "replace" and rc == 0 and sc.is_json and sc.row.get("quiet") and not err.strip():
             return "replace_json_quiet_no_document"
+    if kind == "text_on_stdout" and sc.git == "committed" and sc.row.get("commit") and any(re.match(r"\[[\w/.-]+ [0-9a-f]{7,}\]", j) for j in obs["junk"]):
+        return "replace_commit_git_stdout"      # repaired by 684ddcb: not listed, so a return is a VIOLATION (named for the replay)
     if kind == "text_on_stdout" and sc.tty and sc.cmd == "rename" and not sc.row.get("yes") and rc == 0 and obs["ndocs"] == 1 \
             and obs["junk"] == ["Apply? [y/N]:"]:
         return "rename_tty_prompt_on_stdout"
@@ -641,6 +689,9 @@ def model_request(sc):
     f = lambda b: "1" if b else "0"
     if r.get("serfails"):
         return " ".join(["c19rowx", hexs(sc.cmd), f(sc.is_json), f(r.get("quiet")), f(r.get("dry")), f(r.get("yes")), f(r.get("preview")),
+                         f(r.get("noregex")), f(nomatch), f(noren), hexs(sc.fail) if sc.fail else "-", "1"])
+    if r.get("commit"):
+        return " ".join(["c19rowc", hexs(sc.cmd), f(sc.is_json), f(r.get("quiet")), f(r.get("dry")), f(r.get("yes")), f(r.get("preview")),
                          f(r.get("noregex")), f(nomatch), f(noren), hexs(sc.fail) if sc.fail else "-", "1"])
     return " ".join(["c19row", hexs(sc.cmd), f(sc.is_json), f(r.get("quiet")), f(r.get("dry")), f(r.get("yes")), f(r.get("preview")),
                      f(r.get("noregex")), f(nomatch), f(noren), hexs(sc.fail) if sc.fail else "-"])
@@ -787,11 +838,25 @@ def set_aside_repaired_witnesses(ctx):
     return names
 
 
+def corpus_scenarios():
+    names = set()
+    d = os.path.join(common.ROOT, "corpus", "C19")
+    for fn in sorted(os.listdir(d)) if os.path.isdir(d) else []:
+        if fn.endswith(".json"):
+            try:
+                case = json.load(open(os.path.join(d, fn))).get("case", {})
+                if isinstance(case, dict) and case.get("scenario"):
+                    names.add(case["scenario"])
+            except ValueError:
+                pass
+    return names
+
+
 def run(ctx):
     ctx.cov["exhaustive"] = True
     ctx.cov["rule"] = ("CLI grid, every cell run once in a fresh scratch tree: commands {plan, search, rename, replace, apply, undo, redo, history, "
                        "status, version} x scenario class {matches+renames, matches only, renames only, none, nonexistent path, unknown id, missing/"
-                       "corrupt plan file, invalid regex, empty literal pattern, a matched path that is not valid UTF-8, the workspace lock held by another process, a search path that is a term-named directory (with / without --rename-root / --no-rename-root, json and summary), rename conflict, stale plan (same length / truncated), no confirmation, invalid flag "
+                       "corrupt plan file, invalid regex, empty literal pattern, a matched path that is not valid UTF-8, the workspace lock held by another process, --commit inside a real git repository and without one, a free-form --auto-init value, a search path that is a term-named directory (with / without --rename-root / --no-rename-root, json and summary), rename conflict, stale plan (same length / truncated), no confirmation, invalid flag "
                        "value (clap), bad -C / --auto-init (exits before dispatch), first run in/outside a git repository with/without -y, "
                        "--no-auto-init, --auto-init repo, rename on a pseudo-terminal with / without -y} x {--quiet, --dry-run where accepted}; "
                        "thorough additionally x every --preview value. "
@@ -821,6 +886,10 @@ def run(ctx):
         ctx.broke("translator", "bindings.load", str(ex))
         return
     scs = scenarios(ctx.thorough)
+    # corpus first: the cells named by corpus/C19/*.json (witnesses of listed findings and regression cases of repaired defects)
+    first = corpus_scenarios()
+    scs.sort(key=lambda s: (s.name not in first,))
+    ctx.cov["corpus_cells_run_first"] = sum(1 for s in scs if s.name in first)
     # 4/5 model prediction for every row, then the grid
     try:
         models = common.run_model([model_request(s) for s in scs])
